@@ -7,9 +7,11 @@ import (
 
 	"github.com/privacybydesign/gabi/big"
 	"github.com/privacybydesign/gabi/gabikeys"
+	"github.com/privacybydesign/gabi/revocation"
 )
 
 func init() {
+	vpHarnesses["vpC06_O3"] = vpC06_O3
 	vpHarnesses["vpC06_O1"] = vpC06_O1
 	vpHarnesses["vpC06_O2"] = vpC06_O2
 }
@@ -122,7 +124,7 @@ func vpC06_O2() {
 	vpAssume(r.issue() == nil)
 	m := r.sigMsg
 	vpAssume(m.Proof.C.Sign() != 0)
-	switch vpChoose("holderdev", 11) {
+	switch vpChoose("holderdev", 14) {
 	case 0:
 		m.Proof.C = vpAddTo(m.Proof.C, d)
 	case 1:
@@ -159,6 +161,12 @@ func vpC06_O2() {
 		inv, ok := common.ModInverse(r.pk.R[i+1], r.pk.N)
 		vpAssume(ok)
 		m.Signature.KeyshareP = new(big.Int).Exp(inv, d, r.pk.N)
+	case 11: // parts of the message are missing altogether (a JSON document without the key)
+		m.Proof = nil
+	case 12:
+		m.Signature = nil
+	case 13:
+		m.Proof = &ProofS{}
 	case 7: // the holder's own nonce differs from the one the issuer used
 		r.builder.nonce2 = vpAddTo(r.builder.nonce2, d)
 	case 8: // the holder's context differs
@@ -166,4 +174,51 @@ func vpC06_O2() {
 	}
 	cred, err := r.builder.ConstructCredential(m, append([]*big.Int{}, r.attrs...))
 	vpAssert("deviating issuer message is refused", err != nil && cred == nil)
+}
+
+// C06-O3: honest issuance of a revocable credential: the issuer's real code makes
+// an accumulator and a witness, the witness value is the last attribute, and the
+// ordinary attribute is random blind or not. The run ends in a credential that
+// carries the witness, whose signature verifies over (secret, attributes), whose
+// revocation attribute is found at its index, and whose random-blind attribute is
+// the sum of the shares - no panic, no error.
+func vpC06_O3() {
+	pk, sk := vpKeys(0, 3, 1024, true)
+	ctx, nonce1, nonce2 := vpBigBits("ctx", 256), vpBigBits("n1", 80), vpBigBits("n2", 80)
+	secret := vpBigBits("secret", 255)
+	upd, err := revocation.NewAccumulator(sk)
+	vpAssume(err == nil)
+	acc, err := upd.SignedAccumulator.UnmarshalVerify(pk)
+	vpAssume(err == nil)
+	wit, err := revocation.RandomWitness(sk, acc)
+	vpAssume(err == nil)
+	wit.SignedAccumulator = upd.SignedAccumulator
+	var blind []int
+	attrs := []*big.Int{nil, wit.E}
+	isBlind := vpBool("blind0")
+	if isBlind {
+		blind = []int{0}
+	} else {
+		attrs[0] = vpBigBits("attr0", 256)
+		vpAssume(attrs[0].Cmp(wit.E) != 0)
+	}
+	vpAssume(secret.Cmp(wit.E) != 0)
+	builder, err := NewCredentialBuilder(pk, ctx, secret, nonce2, nil, blind)
+	vpAssert("builder created", err == nil)
+	commitMsg, err := builder.CommitToSecretAndProve(nonce1)
+	vpAssert("commitment message created", err == nil)
+	sigMsg, err := NewIssuer(sk, pk, ctx).IssueSignature(commitMsg.U, attrs, wit, commitMsg.Nonce2, blind)
+	vpAssert("issuer signs", err == nil)
+	cred, err := builder.ConstructCredential(sigMsg, append([]*big.Int{}, attrs...))
+	vpAssert("revocable credential constructed", err == nil && cred != nil)
+	if err != nil {
+		return
+	}
+	vpAssert("revocable credential carries its witness", cred.NonRevocationWitness != nil && cred.NonRevocationWitness.E.Cmp(wit.E) == 0)
+	idx, err := cred.NonrevIndex()
+	vpAssert("revocation attribute is found at its index", err == nil && idx == 2)
+	vpAssert("revocable credential signature verifies", cred.Signature.Verify(pk, cred.Attributes))
+	if isBlind {
+		vpAssert("random blind attribute of the revocable credential is the sum of the shares", vpSameBig(cred.Attributes[1], new(big.Int).Add(builder.mUser[1], sigMsg.MIssuer[1])))
+	}
 }
